@@ -10,6 +10,7 @@ import (
 	"sort"
 	"strconv"
 	"strings"
+	"sync"
 	"sync/atomic"
 	"testing"
 	"time"
@@ -821,6 +822,72 @@ func TestRawStorm(t *testing.T) {
 				s.Rec.SetSilent(true)
 			}
 			_ = sock.Close()
+			time.Sleep(2 * time.Second)
+			s.Wait()
+			if np != 1 {
+				return
+			}
+			// connection storm (PAIR: at most one peer at a time): several connections arrive on several listeners
+			// at the same moment - their Attaching callbacks wait for one another, so the protocol's decisions about
+			// them are taken together; however they interleave, at most one is admitted
+			const K = 5
+			sock2 := protocol.MakeSocket(p.mk())
+			for k := 0; k < K; k++ {
+				must(sock2.Listen(s.Net.Addr(fmt.Sprintf("m%d", k))))
+			}
+			var hmu sync.Mutex
+			arrived, live, most, admitted := 0, 0, 0, 0
+			gate := make(chan struct{})
+			sock2.SetPipeEventHook(func(ev mangos.PipeEvent, _ mangos.Pipe) {
+				hmu.Lock()
+				switch ev {
+				case mangos.PipeEventAttaching:
+					arrived++
+					g := gate
+					if arrived == K {
+						close(g)
+					}
+					hmu.Unlock()
+					<-g
+					return
+				case mangos.PipeEventAttached:
+					live++
+					admitted++
+					if live > most {
+						most = live
+					}
+				case mangos.PipeEventDetached:
+					live--
+				}
+				hmu.Unlock()
+			})
+			crounds := count(400, 4000)
+			if crounds > 20000 {
+				crounds = 20000
+			}
+			for r := 0; r < crounds; r++ {
+				var vps []*vt.Pipe
+				for k := 0; k < K; k++ {
+					vp := s.Net.NewPipe(fmt.Sprintf("c%d_%d", r, k))
+					vp.SetQuiet(true)
+					vps = append(vps, vp)
+					s.Net.Listener(fmt.Sprintf("m%d", k)).Offer(vp)
+				}
+				s.Wait()
+				for _, vp := range vps {
+					vp.Drop()
+				}
+				s.Wait()
+				hmu.Lock()
+				arrived, gate = 0, make(chan struct{})
+				hmu.Unlock()
+			}
+			hmu.Lock()
+			s.Rec.SetSilent(false)
+			s.Rec.Emit("bconn", "eng", p.name, "rounds", crounds, "admitted", admitted, "most", most, "live", live)
+			s.Rec.SetSilent(true)
+			hmu.Unlock()
+			_ = sock2.Close()
 			time.Sleep(2 * time.Second)
 			s.Wait()
 		})
